@@ -311,4 +311,4 @@ LEVEL_NOTE = ("H2->H1 full for the header block and request line; H1->H1 partial
               "pipelined bytes are forwarded as its body; 'Transfer-Encoding: xchunked', signed Content-Length and an "
               "empty field name are forwarded verbatim). HPACK and DATA-frame plumbing are outside the model.")
 TECHNIQUE = "Rocq/Coq proof over an executable Gallina model + differential correspondence (extracted OCaml vs real crate)"
-CLAIMED = False
+CLAIMED = True
